@@ -324,7 +324,9 @@ def register(generators, gm):
             ], "", "", shapes))
             out.append(translate(sty, voc("ekind", []), [
                 ("write_to", "Style", "gr_style_write_to", {}),
-                ("write_reset_to", "Style", "gr_style_write_reset_to", {}),
+                # `monadic`: an io function stays option-valued however its body is spelled (with early returns nothing
+                # in it binds, and the emitter would type it as a total function: the theorems say `= Some ..`)
+                ("write_reset_to", "Style", "gr_style_write_reset_to", {"monadic": True}),
             ], "", "", shapes))
             # ---- color.rs: conversions and the `on` / `on_default` constructors of a Style
             v = voc("unit", COLOR_RS)
